@@ -306,4 +306,36 @@ theorem go_concurrent_no_level_lost (c0 : Core) (progs : List (List Call)) (sche
   rw [hs]
   exact concurrent_no_level_lost c0 progs sched
 
+/-! ## non-vacuity -/
+
+/-- `lh.Store(derive(lh.Load()))` as a step program (what the translator writes for that body) -/
+def loadStore : StepProg where
+  loop := false
+  body := Prog.load fun t1 => Prog.derive t1 fun t2 => Prog.store t2 <| Prog.fall
+
+/-- The semantics of step programs tells the two algorithms apart: under load-then-store the schedule
+of `legacy_concurrent_lost_field_violates` loses `a:1` (both calls have returned).  So
+`go_update_steps_eq` is a statement about the translated loop, not about every program. -/
+theorem step_semantics_load_store_loses_field :
+    let s := gcrun loadStore true (gcinit loadStore (.base warnLevel ["g:0"]) [[.wf ["a:1"]], [.wf ["b:1"]]]) [0, 1, 0, 1]
+    s.threads.map (fun t => (t.cur.isNone, t.done.length)) = [(true, 1), (true, 1)] ∧
+      "a:1" ∉ ((s.sh.heap[s.sh.ptr]?).getD default).written := by
+  decide
+
+/-- a run of the translated functions (fuel 1), evaluated by the kernel: loggers shared by derived
+contexts, a child with its own holder, a context without logger getting one on its first `WithFields` -/
+example :
+    goRun true 1 (initSt (.base warnLevel ["g:0"]))
+        [.init 0 ["a:1"], .derive 1, .setLevel 2 debugLevel, .withFields 1 ["b:2"], .child 2 ["c:3"], .withFields 0 ["z:9"]] =
+      pure { global := .base warnLevel ["g:0"],
+             holders := [.custom (.base warnLevel ["g:0", "a:1", "b:2"]) debugLevel,
+                         .custom (.base warnLevel ["g:0", "a:1", "b:2", "c:3"]) debugLevel,
+                         .base warnLevel ["g:0", "z:9"]],
+             ctxs := [none, some 0, some 0, some 0, some 0, some 1, some 2] } := by
+  rfl
+
+/-- out of fuel is an error, not a result -/
+example : (goRun true 0 (initSt (.base warnLevel [])) [.withFields 0 ["a:1"]]).toOption = none := by
+  rfl
+
 end C18Tie
